@@ -469,6 +469,17 @@ func opWalk(op *proto.Op, res *proto.Res) error {
 				continue
 			}
 			pg := convPage(p)
+			if op.S == "filecmp" && p.Cached && !p.Dirty {
+				// C12 on real pages: a clean cached node must equal what the
+				// file holds for it
+				if fp, ferr := storage.VerifPeekFile(rs, off); ferr != nil {
+					pg.Err = "filecmp: cannot decode the page from the file: " + ferr.Error()
+				} else if a, b := logicalPage(convPage(p)), logicalPage(convPage(fp)); a != b {
+					pg.Err = "filecmp: cached node and file page differ: cache{" + a + "} file{" + b + "}"
+				} else {
+					res.Count++
+				}
+			}
 			if p.Offset != off {
 				pg.Err = fmt.Sprintf("page fetched at %d says it lives at %d", off, p.Offset)
 				pg.Off = off
@@ -563,4 +574,27 @@ func copyFile(src, dst string) error {
 		return err
 	}
 	return o.Close()
+}
+
+// logicalPage renders the logical content of a page dump.
+func logicalPage(p proto.Page) string {
+	s := fmt.Sprintf("leaf=%v off=%d lsn=%d", p.Leaf, p.Off, p.LSN)
+	if p.Leaf {
+		s += fmt.Sprintf(" hasL=%v hasR=%v", p.HasL, p.HasR)
+		if p.HasL {
+			s += fmt.Sprintf(" l=%d", p.LSib)
+		}
+		if p.HasR {
+			s += fmt.Sprintf(" r=%d", p.RSib)
+		}
+		for i, k := range p.Keys {
+			s += fmt.Sprintf(" (%d,%v,%d,%x)", k, p.Deleted[i], p.ValLens[i], p.ValHash[i])
+		}
+	} else {
+		s += fmt.Sprintf(" right=%d", p.Right)
+		for i, k := range p.Keys {
+			s += fmt.Sprintf(" (%d->%d)", k, p.Children[i])
+		}
+	}
+	return s
 }
